@@ -49,6 +49,20 @@ CHECKS["C05"] = (
     "DESIGN.md §3 C05",
 )
 
+CHECKS["C06"] = (
+    "exploration",
+    "bounded-exhaustive enumeration of all labelled rooted topologies x sampling-date patterns x parameter lattice, plus all move/update histories of depth<=3",
+    "Every labelled rooted binary topology on 3..5 (thorough: 6) taxa x every assignment of sampling ages "
+    "{0,1.5} to the tips (as ages and as calendar dates) x both parameterisations x a parameter lattice, "
+    "evaluated as one batch and as single points on the real ReparameterizedTimeTreeModel, compared with an "
+    "independent recursive computation (tips at sampling times, parent>=child, branch length = parent-child "
+    "indexed by child, inverse round trip single and batched); and every sequence of depth<=3 over "
+    "{cpu(), to(float64), to('cpu'), set parameters, read} on every 4-taxon topology (parameterisation "
+    "unchanged, heights still those of the current parameters).",
+    "Topologies above 6 taxa and CUDA moves are not explored; continuous values on a lattice.",
+    "DESIGN.md §3 C06",
+)
+
 NOT_APPLICABLE = {}
 
 PENDING_REASON = ("check not built yet in this revision (planned in DESIGN.md §3); "
